@@ -54,6 +54,24 @@ def sig(x):
     return float(f"{float(x):.6g}")
 
 
+def same_front(a, b, rel=2e-5):
+    """Fronts (lists of vectors already rounded to 6 significant digits) are the same when they can be
+    matched one to one with every coordinate within rel: a float32 table value and the float64 reference
+    value may round to neighbouring 6-digit numbers."""
+    if isinstance(a, str) or isinstance(b, str):
+        return a == b
+    a, b = list(a), list(b)
+    if len(a) != len(b):
+        return False
+    for v in a:
+        hit = next((w for w in b if len(w) == len(v) and
+                    all(abs(x - y) <= rel * max(abs(x), abs(y), 1e-12) for x, y in zip(v, w))), None)
+        if hit is None:
+            return False
+        b.remove(hit)
+    return True
+
+
 def row_tree(template, row, einsum):
     from accelforge.frontend.mapping import Compute, Reservation, Spatial, Temporal, TensorHolder
 
@@ -165,7 +183,7 @@ def body(cfg):
     viol = None
     if err and ref:
         viol = {"observed": err, "expected": ref[:6], "family": "join-raises"}
-    elif ref != got:
+    elif not same_front(ref, got):
         lost = [v for v in ref if v not in got]
         extra = [v for v in got if v not in ref]
         viol = {"observed": {"front": got[:8], "extra": extra[:4]}, "expected": {"front": ref[:8], "lost": lost[:4]},
